@@ -26,21 +26,56 @@ fn compare_numbers_for_range<F>(left: &Value, right: &Value, cmp: &F) -> Value
 where
     F: Fn(Ordering) -> bool,
 {
-    // Two integers are compared as integers: `as f64` rounds beyond 2^53 and would make
-    // e.g. 9007199254740993 <= 9007199254740992 true while both `<` and `=` are false.
-    if let (Value::Int(l), Value::Int(r)) = (left, right) {
-        return Value::Bool(cmp(l.cmp(r)));
+    if value_as_f64(left).is_none() || value_as_f64(right).is_none() {
+        return Value::Null;
     }
-    let (l, r) = match (value_as_f64(left), value_as_f64(right)) {
-        (Some(l), Some(r)) => (l, r),
-        _ => return Value::Null,
-    };
-    if l.is_nan() || r.is_nan() {
-        return Value::Bool(false);
+    match compare_numeric(left, right) {
+        Some(ord) => Value::Bool(cmp(ord)),
+        // a NaN operand: every range comparison is false
+        None => Value::Bool(false),
     }
-    l.partial_cmp(&r)
-        .map(|ord| Value::Bool(cmp(ord)))
-        .unwrap_or(Value::Null)
+}
+
+/// Exact three-way comparison of an integer with a non-NaN float.
+///
+/// Casting the integer (`i as f64`) rounds beyond 2^53, which made `=` non-transitive
+/// (9007199254740993 = 9007199254740992.0 = 9007199254740992) and ORDER BY's comparator
+/// inconsistent.  Here no step rounds: floats outside the i64 range decide by sign, otherwise the
+/// float's integral part fits an i64 exactly and the dropped fraction breaks the tie.
+pub(super) fn compare_int_float(int_value: i64, float_value: f64) -> Ordering {
+    const TWO_POW_63: f64 = 9_223_372_036_854_775_808.0;
+    if float_value >= TWO_POW_63 {
+        return Ordering::Less;
+    }
+    if float_value < -TWO_POW_63 {
+        return Ordering::Greater;
+    }
+    let truncated = float_value.trunc();
+    match int_value.cmp(&(truncated as i64)) {
+        Ordering::Equal => {
+            if truncated < float_value {
+                Ordering::Less
+            } else if float_value < truncated {
+                Ordering::Greater
+            } else {
+                Ordering::Equal
+            }
+        }
+        ord => ord,
+    }
+}
+
+/// `partial_cmp` of two numbers without a lossy cast; `None` if either is NaN or not a number.
+fn compare_numeric(left: &Value, right: &Value) -> Option<Ordering> {
+    match (left, right) {
+        (Value::Int(l), Value::Int(r)) => Some(l.cmp(r)),
+        (Value::Int(l), Value::Float(r)) if !r.is_nan() => Some(compare_int_float(*l, *r)),
+        (Value::Float(l), Value::Int(r)) if !l.is_nan() => {
+            Some(compare_int_float(*r, *l).reverse())
+        }
+        (Value::Float(l), Value::Float(r)) => l.partial_cmp(r),
+        _ => None,
+    }
 }
 
 fn compare_lists_for_range<F>(left: &[Value], right: &[Value], cmp: &F) -> Value
@@ -145,8 +180,17 @@ pub(super) fn order_compare_non_null(left: &Value, right: &Value) -> Option<Orde
         (Value::Bool(l), Value::Bool(r)) => Some(l.cmp(r)),
         (Value::Int(l), Value::Int(r)) => Some(l.cmp(r)),
         (Value::Float(l), Value::Float(r)) => Some(compare_f64_with_nan(*l, *r)),
-        (Value::Int(l), Value::Float(r)) => Some(compare_f64_with_nan(*l as f64, *r)),
-        (Value::Float(l), Value::Int(r)) => Some(compare_f64_with_nan(*l, *r as f64)),
+        // NaN sorts after every number (as in compare_f64_with_nan); otherwise compare exactly
+        (Value::Int(l), Value::Float(r)) => Some(if r.is_nan() {
+            Ordering::Less
+        } else {
+            compare_int_float(*l, *r)
+        }),
+        (Value::Float(l), Value::Int(r)) => Some(if l.is_nan() {
+            Ordering::Greater
+        } else {
+            compare_int_float(*r, *l).reverse()
+        }),
         (Value::String(l), Value::String(r)) => Some(compare_strings_with_temporal(l, r)),
         _ => {
             let rank_cmp = value_order_rank(left).cmp(&value_order_rank(right));
